@@ -44,6 +44,7 @@ class Written:
         self.dec = dec
         self.sym = sym
         ips = ip
+        self.has_marks = bool(thousands and len(ip) > 3)
         if thousands and len(ip) > 3:
             groups = []
             while ips:
@@ -174,10 +175,12 @@ def run(ctx, n_override=None):
         errtxt = err.decode('utf-8', 'replace')
         bad_lines = set(int(x) for x in re.findall(r'line (\d+):', errtxt))
         # what the oracle needs per commodity: max decimals written among ACCEPTED amounts
-        cp, dcs = {}, {}
+        cp, dcs, marks = {}, {}, set()
         for i, w in enumerate(ws):
             if i in rows and w.sym:
                 cp[w.sym] = max(cp.get(w.sym, 0), w.dec)
+                if getattr(w, 'has_marks', False):
+                    marks.add(w.sym)
         printed = []
         for i, w in enumerate(ws):
             res.evaluations += 1
@@ -221,6 +224,14 @@ def run(ctx, n_override=None):
                 if abs(shown - exact) * 2 > F(1, 10 ** want_dec):
                     res.violations.append(dict(key='print:not-nearest', desc='%r shown for exact %s: off by more than half a unit' % (txt, exact),
                                                case=dict(journal=render(ws)), observed=txt, required='within 1/2 ulp of %s' % exact))
+                # learned style: a commodity written with thousands marks groups its integer digits in threes
+                if w.sym in marks:
+                    body = re.sub(r'[^0-9.,]', '', txt.replace('"%s"' % w.sym, '').replace(w.sym, ''))
+                    ip = body.split(',' if w.dcomma else '.')[0] if (want_dec and ((',' if w.dcomma else '.') in body)) else body
+                    m_ = '.' if w.dcomma else ','
+                    if not re.fullmatch(r'\d{1,3}(%s\d{3})*' % re.escape(m_), ip):
+                        res.violations.append(dict(key='print:grouping', desc='%r: the integer part %r is not grouped in threes' % (txt, ip),
+                                                   case=dict(journal=render(ws)), observed=txt, required='thousands marks every three digits'))
                 if shown != exact or any(c in txt for c in '",') or (k == 0 and len(w.text) > 12):
                     res.nontrivial.add(txt + '|' + rat)
                 if k == 0:
